@@ -5,14 +5,13 @@ from ast import AST
 from collections import defaultdict
 from collections.abc import Mapping
 from inspect import Signature
-from keyword import iskeyword
 from typing import Union
 
 from ...code_tools.ast_templater import ast_substitute
 from ...code_tools.cascade_namespace import BuiltinCascadeNamespace, CascadeNamespace
 from ...code_tools.code_builder import CodeBuilder
 from ...code_tools.name_sanitizer import NameSanitizer
-from ...code_tools.utils import get_literal_expr, get_literal_from_factory
+from ...code_tools.utils import can_be_keyword_arg, get_literal_expr, get_literal_from_factory
 from ...model_tools.definitions import DescriptorAccessor, ItemAccessor
 from ...special_cases_optimization import as_is_stub, as_is_stub_with_ctx
 from .definitions import (
@@ -153,12 +152,12 @@ class BuiltinBroachingCodeGenerator(BroachingCodeGenerator):
                 args.append(sub_ast)
             elif isinstance(arg, KeywordArg):
                 sub_ast = self._gen_plan_element_dispatch(state, arg.element)
-                if iskeyword(arg.key) or arg.key == "__debug__":  # e.g. TypedDict key `from`
+                if can_be_keyword_arg(arg.key):
+                    keywords.append(ast.keyword(arg=arg.key, value=sub_ast))  # type: ignore[call-overload]
+                else:
                     keywords.append(
                         ast.keyword(value=ast.Dict(keys=[ast.Constant(arg.key)], values=[sub_ast])),  # type: ignore[call-overload]
                     )
-                else:
-                    keywords.append(ast.keyword(arg=arg.key, value=sub_ast))  # type: ignore[call-overload]
             elif isinstance(arg, UnpackMapping):
                 sub_ast = self._gen_plan_element_dispatch(state, arg.element)
                 keywords.append(ast.keyword(value=sub_ast))  # type: ignore[call-overload]
